@@ -50,6 +50,16 @@ let () =
     | _ -> "badargs")
 
 let () =
+  (* inplace <buffer> <pos> <srcSize> <cap> <fastloop 0|1>: Model/DecInplace.v, LZ4_decompress_safe(buf+pos, buf, srcSize, cap)
+     inside the one buffer -> ret ok|OOB len md5 of the whole buffer afterwards *)
+  reg "inplace" (function [buf; pos; srcsize; cap; fl] ->
+      let buf = bytes_of_hex buf in
+      let m0 = mem_of_list (z 0) buf in
+      let ((r, m), ok) = decompress_safe_inplace (fl = "1") (zs pos) (zs srcsize) (zs cap) m0 in
+      Printf.sprintf "%s %s %s" (zstr r) (if ok then "ok" else "OOB") (show_bytes (load_list m (z 0) (len buf)))
+    | _ -> "badargs")
+
+let () =
   (* semout <hist> <blk> <r>: the specified output of Proofs/DecConversePartialTop.v (sequence semantics of an
      arbitrary input, truncated where the input ends) -> total length, md5 of its first r bytes *)
   reg "semout" (function [h; b; r] ->
